@@ -11,7 +11,7 @@ Section OpSound.
   Notation value := (value F).
   Notation type_of := (@type_of F).
 
-  Definition scalar_val (v : value) : bool := match v with VArr _ _ | VVoid => false | _ => true end.
+  Definition scalar_val (v : value) : bool := match v with VArr _ _ | VVoid | VObj _ _ => false | _ => true end.
   Definition wf (v : value) : bool :=
     match v with
     | VArr t l => scalar t && forallb (fun x => scalar_val x && ty_eqb (type_of x) t) l
@@ -31,6 +31,8 @@ Section OpSound.
     revert b; induction a; destruct b; simpl; split; intro H; try discriminate; try reflexivity.
     - f_equal. now apply IHa.
     - inversion H; subst. now apply IHa.
+    - f_equal. now apply String.eqb_eq.
+    - inversion H; subst. apply String.eqb_refl.
   Qed.
 
   Lemma ty_eqb_refl a : ty_eqb a a = true.
@@ -109,8 +111,8 @@ Section OpSound.
             | _, _ => stuck "bitwise"
             end) as E by (destruct Ho as [-> | [-> | ->]]; reflexivity).
     rewrite E; clear E Ho.
-    destruct a as [| | | x | | | | ta la |]; simpl in T; try discriminate;
-    destruct b as [| | | y | | | | tb lb |]; simpl in T; try discriminate;
+    destruct a as [| | | x | | | | ta la | |]; simpl in T; try discriminate;
+    destruct b as [| | | y | | | | tb lb | |]; simpl in T; try discriminate;
     try solve [destruct ta; discriminate].
     - inversion T. simpl. auto.
     - destruct tb; try discriminate. inversion T; subst. bit_tac. split; [reflexivity | apply wf_bits].
@@ -190,7 +192,7 @@ Section OpSound.
   Theorem unop_sound o a t :
     wf a = true -> un_ty o (type_of a) = Some t -> sound_res (unop_eval O o a) t.
   Proof.
-    intros Wa T. destruct o; destruct a as [| | | | | | | ta la |]; simpl in T; try discriminate;
+    intros Wa T. destruct o; destruct a as [| | | | | | | ta la | |]; simpl in T; try discriminate;
       try (inversion T; subst; simpl; auto; fail).
     - inversion T; subst. apply long_res_sound.
     - destruct ta; try discriminate. inversion T; subst. simpl. bit_tac.
